@@ -74,6 +74,8 @@ class Ctx:
     nested_probes = False
     strict = False     # also record the mechanism-level events (pop, filter output, queue snapshots) for MechTrace
     tt = 0             # the stack level the recorder believes is current (resumes are recognised by the state)
+    base = None        # the statistics when the recorded call made its first consistency pass (None: not yet known)
+    prior_stats = None # the statistics right after the earlier, unobserved call on the same solver object
 
 
 C = Ctx
@@ -93,8 +95,16 @@ def _en(level=None):
     return [bool(x) for x in s.not_entailed_propagators_stack[_top() if level is None else level]]
 
 
+DEPTH_IDX = problems.STAT_LABELS.index([l for l in problems.STAT_LABELS if "DEPTH" in l.upper()][0])
+
+
 def _stats():
-    return problems.user_stats(C.solver)
+    """The statistics as returned to the user, relative to what they were when the recorded call began (C.base): the
+    additive counters minus their baseline, the depth (a maximum) as it is."""
+    st = problems.user_stats(C.solver)
+    if C.base is None:
+        return st
+    return [x if i == DEPTH_IDX else x - b for i, (x, b) in enumerate(zip(st, C.base))]
 
 
 def _emit(e):
@@ -186,6 +196,13 @@ def wrap_ca(alg, f):
     def g(*a):
         if C.probing or C.solver is None:
             return f(*a)
+        if C.base is None:
+            # first consistency pass of the recorded call: nothing has been counted for it yet.  On a solver object that
+            # was used before, the counters are either still the totals of the earlier call (cumulative statistics) or
+            # all back to zero (statistics per call) - the "K" event lets the specification reject a mixture
+            C.base = problems.user_stats(C.solver)
+            if C.prior_stats is not None:
+                _emit({"k": "K", "d": 0, "base": list(C.base), "prior": list(C.prior_stats)})
         _sync()
         top = _top()
         e = {"k": "P", "alg": alg, "top": top, "in": _box(), "en": _en(), "trunc": False, "bc": [],
@@ -438,6 +455,8 @@ def drive(item):
     C.passes = []
     C.probing = False
     C.cut = False
+    C.base = None
+    C.prior_stats = None
     C.mode = mode
     C.objvar = int(item.get("var", -1)) if item.get("var") is not None else -1
     C.lastsol = None
@@ -463,7 +482,7 @@ def drive(item):
                 s.maximize(prior[1])
         except Exception:  # noqa - an earlier call that fails is the business of the run that records it
             pass
-        s.statistics.fill(0)
+        C.prior_stats = problems.user_stats(s)
     C.solver = s
     C.tt = int(s.stacks_top[0])
     limit = item.get("limit")
@@ -556,7 +575,8 @@ def run_item(item, interp_timeout=20.0):
         cfg_out["ca"] = 2
     out = {"id": item["id"], "P": Pd, "cfgx": cfgx, "cfg": cfg_out,
            "mode": item.get("mode", "solve"), "var": item.get("var", -1), "limit": item.get("limit", -1),
-           "cut": bool(C.cut), "slow": slow, "ev": C.ev}
+           "cut": bool(C.cut), "slow": slow, "ev": C.ev,
+           "depth0": int(C.base[DEPTH_IDX]) if C.base is not None else 0}
     return out
 
 
